@@ -525,6 +525,7 @@ func Run(c *vh.Ctx) {
 	}
 	c.HitN("stream:random-reentrant", nrr)
 
+	tLong := c.Elapsed()
 	nl := 0
 	enumLong(c.Thorough(), func(cs Case) { r.check(cs, false); nl++ })
 	c.HitN("stream:long-run", nl)
@@ -534,6 +535,7 @@ func Run(c *vh.Ctx) {
 		r.check(randLongCase(c.Rand), false)
 	}
 	c.HitN("stream:random-long-run", nrl)
+	c.Note("long-running streams: %d programs in %.1f s", nl+nrl, (c.Elapsed() - tLong).Seconds())
 
 	if r.failures >= floodLimit {
 		c.Note("more than %d failing programs: the remaining generated programs were skipped", floodLimit)
